@@ -22,6 +22,7 @@ theorem facts_ok : okPost S = true := by decide
 
 theorem facts_retry_ok :
     (A.retryStartsAtZero && A.retryIncrements && A.retryCounterOnlyInHeader && A.retryLoopOp == .le &&
+     A.retryInnerOp == .lt && A.oneRequestPerIteration &&
      A.failedStatusOnExhaustion && A.onlyPreProcessedFetched && A.workAtMaxDepth) = true := by decide
 
 /-- **Redirect chains.** A redirect is followed only from a node that has fewer than `--max-redirect`
@@ -63,6 +64,26 @@ theorem c06_tree_bounded (cfg : Cfg) (ex : String → Extract) (hops : Nat) (t :
 /-- **Retries.** A URL whose every attempt fails is attempted exactly `--max-retry + 1` times per visit. -/
 theorem c06_attempts (maxRetry : Nat) : attempts A maxRetry = maxRetry + 1 :=
   attempts_le A (by decide) maxRetry
+
+/-- **Retries, any site.** One visit of a URL sends at most `--max-retry + 1` requests, whatever the site does on
+each attempt (no response, bad status, challenge page, good response, in any order). `visit` is the retry loop
+of `archive()` with its operators, start value and step read from the source. -/
+theorem c06_visit_bound (maxRetry : Nat) (site : Nat → Attempt) : (visit A maxRetry site).1 ≤ maxRetry + 1 :=
+  visit_bound A (by decide) maxRetry site
+
+/-- … and the visit always ends with a verdict: the node is Failed, or a response is kept. -/
+theorem c06_visit_ends (maxRetry : Nat) (site : Nat → Attempt) : (visit A maxRetry site).2 ≠ .fellThrough := by
+  have h : visit A maxRetry site = visitFrom A maxRetry site (maxRetry + 2) 0 0 := by
+    unfold visit
+    have : (A.retryStartsAtZero && A.retryIncrements && A.retryCounterOnlyInHeader && A.oneRequestPerIteration) = true := by decide
+    rw [if_pos this]
+  rw [h]
+  exact visitFrom_ends A (by decide) (by decide) maxRetry site _ 0 0 (by omega) (by omega)
+
+/-- non-vacuity of the visit model: reset, 503, then 200 with max-retry 2 → three requests, kept; with max-retry 1 → two, Failed -/
+example :
+    let site : Nat → Attempt := fun n => if n == 0 then .netErr else if n == 1 then .resp 503 false else .resp 200 false
+    visit A 2 site = (3, .ok 200) ∧ visit A 1 site = (2, .failed) ∧ visit A 0 site = (1, .failed) := by decide
 
 /-- non-vacuity: a redirect at the limit is not followed, one below is; an asset found three levels down is not expanded -/
 example :
